@@ -29,7 +29,14 @@ POLICIES = [["collect", "print"], ["collect"], ["collect", "fail"], ["collect", 
 
 def generate(rng, i, tier):
     rows = gen.gen_rows(rng)
-    m = gen.gen_member(rng, rows[0], len(rows), "m0", max_comps=6)
+    modes = {}
+    if rng.random() < 0.2:
+        modes["return-mode"] = "no-matches"
+    if rng.random() < 0.15:
+        modes["logic-mode"] = "OR"
+    if rng.random() < 0.15:
+        modes["unmatched-mode"] = "keep"
+    m = gen.gen_member(rng, rows[0], len(rows), "m0", max_comps=6, modes=modes, zoo_p=0.5, zoo_pool=gen.ZOO)
     return {"seed": rng.getrandbits(32), "rows": rows, "member": m, "policy": rng.choice(POLICIES), "dialect": rng.choice([[",", '"']] * 4 + [[";", '"'], [",", "'"]])}
 
 
@@ -38,6 +45,10 @@ def reductions(sc):
         yield with_(sc, rows=rows)
     for mm in gen.member_reductions(sc["member"]):
         yield with_(sc, member=mm)
+    for k in list((sc["member"].get("modes") or {})):
+        c = with_(sc)
+        del c["member"]["modes"][k]
+        yield c
     if sc["dialect"] != [",", '"']:
         yield with_(sc, dialect=[",", '"'])
 
@@ -130,6 +141,8 @@ def execute(sc):
                     out.v("nexts_side_effect", f"{text!r}: after collect(nexts={n}) of {len(yielded)} the state is not the state next() had at yield {n}: {d}", field=d.split(":")[0], beyond=n > len(yielded))
                     break
         feats = sorted({k for c in sc["member"]["comps"] for k in ("stop()", "skip()", "advance(", "fail()", "print(", "last()", "push(", "tally(", "onmatch", "add(") if k in c})
+        feats += sorted((sc["member"].get("modes") or {}).values())
+        feats += sorted({c.split("(")[0].split("=")[-1].strip(" @#") for c in sc["member"]["comps"] if "(" in c})[:6]
         out.sig = [feats, len(yielded), len(sc["rows"]), "".join("b" if r == [] else "r" for r in sc["rows"])[:12], sc["policy"]]
         out.nontrivial = bool(yielded) and (bool(fin["variables"]) or bool(fin["printouts"]) or not fin["is_valid"])
         out.probe("stopped before the end of the file", fin["stopped"] and bool(yielded))
